@@ -2,6 +2,7 @@ import UgoVerif.Proofs.VMExec
 import UgoVerif.Spec.Sem
 import UgoVerif.Model.Compile
 import UgoVerif.Gen.Opcodes
+import UgoVerif.Proofs.CompSimStmt
 /-
   C02 — compiled execution follows the documented source-level semantics.
 
@@ -370,7 +371,304 @@ theorem vm_tokens_match_source :
     VM.tokOfNat Gen.tok_Not = .Not ∧ VM.tokOfNat Gen.tok_Equal = .Equal ∧ VM.tokOfNat Gen.tok_NotEqual = .NotEqual := by
   decide
 
-/-- the source-level statement (not proved; tested by stream `sem`) -/
+/-! ### compile ⊑ Sem, first slice: expressions over uncaptured locals
+
+  `compile_expr_correct`: let `e` be an expression of the fragment `ExprF` — int / uint / float / char /
+  bool / string / undefined literals, parentheses, unary operators, binary arithmetic, comparison and
+  bitwise operators, `==` `!=`, the jump-based `&&` `||`, `?:` (with or without a boolean literal as
+  condition) and identifiers that the compiler resolves to locals of the current function
+  (`localIdx cs`, computed from the compiler state).  Hypotheses, all explicit:
+  * `hc`: the TOTAL compile model (byte-identical with compiler.go: stream `compile`) compiles `e`
+    from state `cs` to `cs'` (offset `p = cs.insts.size`, end `q = cs'.insts.size`);
+  * `hcode`, `hK`: the function the VM runs has those bytes on `[p, q)` (later patches and appended
+    code are irrelevant) and the VM's constants are the objects of a pool extending `cs'.constants`;
+  * `hvm`: not aborted, stack of size 2048, the current frame runs that function with base pointer
+    `bp`, `lo ≤ sp`; `hip`: `ip = p - 1` (vm.go increments before the fetch); `hsp`: `need e` free slots;
+  * `hloc`: every local of the compiler's table is a box in the environment of the reference
+    semantics and the slot `bp + i < lo` of the VM, same value, slot not captured (no `*ObjectPtr`);
+  * `hh`: the reference semantics runs on a state with the VM's heap (it shares the object layer);
+  * `hsem`: for ANY fuel on which `Sem.evalExpr` returns (no `unsupported`, no Go panic) a result `r`.
+  Conclusion (`Outcome`):
+  * `r = .val v`: there is a fuel `n` such that `loopF F (n + k)` from `s` equals `loopF F k` from a state
+    `s'` (for every `k`), with `ip` at the end of the code, `sp + 1`, `v` in the new slot, every slot below the
+    old `sp` unchanged, frames / handlers / frame index / codes / constants / globals / modules / err
+    unchanged (`Same`), and the heap EQUAL to the heap the reference semantics leaves;
+  * `r = .thr a` (TypeError, ZeroDivisionError, … raised by an operator): the loop reaches, inside
+    some instruction, the call `failWith oe` (= `throwGenErr`: make the error object, then `throw` /
+    `handleThrownError`, whose mechanism Props/C03 covers) in a state `u` with the same control part and
+    the stack unchanged below the old `sp`, and `rtErrOfOpErr oe` run there returns the SAME address `a`
+    and leaves the SAME heap as the reference semantics: same error name, same message, same object.
+  Also: the reference interpreter's own state is untouched, the compile run only appended
+  instructions / constants (`Shape`), and the heap only grew (`Grow`).
+
+  Not covered yet (the ladder continues): statements, captured variables / closures / free
+  variables, calls, arrays / maps / index / selector / slice, loops, try / throw, globals, builtins,
+  imports, `const` literals (`constLit` scope), and the optimizer (C01).  -/
+
+open UgoVerif.CompSim in
+/-- **compile_expr_correct** — statement in the header comment of this section. -/
+theorem compile_expr_correct (F : FloatOps) (e : Ast.Expr) (cs cs' : Compile.CState)
+    (hc : Compile.runCM (Compile.compileExpr e) cs = (.ok (), cs'))
+    (hF : ExprF (localIdx cs) e = true)
+    (K : Array Compile.Const) (code : Code) (bp lo : Nat) (env : Sem.Env) (s t : State)
+    (hK : Compile.IsPre cs'.constants K)
+    (hcode : CodeHas code cs'.insts cs.insts.size)
+    (hvm : VMOk K code bp lo s)
+    (hip : s.ip + 1 = (cs.insts.size : Int))
+    (hsp : s.sp + need e ≤ 2048)
+    (hh : t.heap = s.heap)
+    (hloc : LocalsOK (localIdx cs) env s bp lo)
+    (fuel : Nat) (ss ss1 : Sem.SemSt) (r : Sem.ER) (t1 : State)
+    (hsem : exec ((Sem.evalExpr F fuel env e).run ss) t = (.ok (r, ss1), t1)) :
+    ss1 = ss ∧ Shape cs cs' ∧ Grow t t1 ∧ Outcome F s t1.heap cs'.insts.size r := by
+  have henv : ∀ n, (localIdx cs n).isSome → (Sem.lookupEnv n env).isSome := by
+    intro n hn
+    cases hi : localIdx cs n with
+    | none => simp [hi] at hn
+    | some i =>
+      obtain ⟨a, v, hl, _⟩ := hloc n i hi
+      simp [hl]
+  rw [evalExpr_eq_evalF F (localIdx cs) env henv fuel e hF ss] at hsem
+  unfold withSt at hsem
+  obtain ⟨r', t', h1, h2⟩ := exec_bind_inv hsem
+  obtain ⟨h3, rfl⟩ := exec_pure_inv h2
+  simp only [Prod.mk.injEq] at h3
+  obtain ⟨rfl, rfl⟩ := h3
+  obtain ⟨sh, sim⟩ := good_all F e cs cs' hc hF
+  have hg := (grows_evalF F fuel env e).h t
+  rw [h1] at hg
+  exact ⟨rfl, sh, hg, sim K code bp lo env s t fuel _ _ hK hcode hvm hip hsp hh hloc h1⟩
+
+
+open UgoVerif.CompSim in
+/-- **compile_exprstmt_correct** — the first statement on top of the expression slice: the expression
+    statement `e;` (code of `e`, then POP), `e` in `ExprF`, same hypotheses as `compile_expr_correct`.
+    If the reference semantics completes normally, the VM gets behind the POP with `sp` where it was, the
+    stack below it, frames and handlers unchanged and the heap equal; if it completes with a thrown
+    error, the VM is at `failWith` with the same error object.  No other completion is possible, the
+    environment and the interpreter state are unchanged. -/
+theorem compile_exprstmt_correct (F : FloatOps) (pos : Ast.Pos) (e : Ast.Expr) (cs cs' : Compile.CState)
+    (hc : Compile.runCM (Compile.compileStmt (.expr pos e)) cs = (.ok (), cs'))
+    (hF : ExprF (localIdx cs) e = true)
+    (K : Array Compile.Const) (code : Code) (bp lo : Nat) (env : Sem.Env) (s t : State)
+    (hK : Compile.IsPre cs'.constants K)
+    (hcode : CodeHas code cs'.insts cs.insts.size)
+    (hvm : VMOk K code bp lo s)
+    (hip : s.ip + 1 = (cs.insts.size : Int))
+    (hsp : s.sp + need e ≤ 2048)
+    (hh : t.heap = s.heap)
+    (hloc : LocalsOK (localIdx cs) env s bp lo)
+    (fuel : Nat) (ss ss1 : Sem.SemSt) (c : Sem.Comp) (env' : Sem.Env) (t1 : State)
+    (hsem : exec ((Sem.execStmt F fuel env (.expr pos e)).run ss) t = (.ok ((c, env'), ss1), t1)) :
+    ss1 = ss ∧ env' = env ∧ Shape cs cs' ∧ OutcomeS F s t1.heap cs'.insts.size c := by
+  have henv : ∀ n, (localIdx cs n).isSome → (Sem.lookupEnv n env).isSome := by
+    intro n hn
+    cases hi : localIdx cs n with
+    | none => simp [hi] at hn
+    | some i =>
+      obtain ⟨a, v, hl, _⟩ := hloc n i hi
+      simp [hl]
+  cases fuel with
+  | zero =>
+    rw [execStmt_zero, run_liftM] at hsem
+    unfold withSt at hsem
+    obtain ⟨_, _, h1, _⟩ := exec_bind_inv hsem
+    cases h1
+  | succ fuel =>
+    rw [run_execStmt_expr F (localIdx cs) env henv fuel pos e hF ss] at hsem
+    unfold withSt at hsem
+    obtain ⟨p, t', h1, h2⟩ := exec_bind_inv hsem
+    obtain ⟨h3, rfl⟩ := exec_pure_inv h2
+    simp only [Prod.mk.injEq] at h3
+    obtain ⟨rfl, rfl⟩ := h3
+    obtain ⟨r, t2, h4, h5⟩ := exec_bind_inv h1
+    obtain ⟨h6, rfl⟩ := exec_pure_inv h5
+    obtain ⟨sh, sim⟩ := sim_exprStmt F pos e cs cs' hc hF
+    have o := sim K code bp lo env s t fuel r _ hK hcode hvm hip hsp hh hloc h4
+    simp only [Prod.mk.injEq] at h6
+    obtain ⟨rfl, rfl⟩ := h6
+    exact ⟨rfl, rfl, sh, o⟩
+
+/-! #### non-vacuity: `(1 + x) * 2 < 7 || !b` with `x = 3`, `b = false` -/
+namespace Ex
+open UgoVerif.Ast UgoVerif.CompSim
+
+deriving instance DecidableEq for V, IterK, Cell
+
+def e0 : Expr :=
+  .binary 1 tLOr
+    (.binary 2 tLess (.binary 3 tMul (.paren 4 (.binary 5 tAdd (.int 6 1#64) (.ident 7 "x"))) (.int 8 2#64)) (.int 9 7#64))
+    (.unary 10 tNot (.ident 11 "b"))
+
+/-- compiler state inside a function whose locals are `x` (slot 0) and `b` (slot 1) -/
+def cs0 : Compile.CState :=
+  { tables := [{ store := [("x", { name := "x", index := 0, scope := .local_ }), ("b", { name := "b", index := 1, scope := .local_ })],
+                 numDefinition := 2, maxDefinition := 2 }],
+    builtins := [] }
+
+def cs1 : Compile.CState := (Compile.runCM (Compile.compileExpr e0) cs0).2
+
+def constV : Compile.Const → V
+  | .val v => Eval.scalarOfCVal v
+  | .fn _ => .nil
+
+/-- the VM in front of the expression's code: frame 0 runs the code, `x = 3` and `b = false` in the
+    local slots 0 and 1 (and, for the reference semantics, in the boxes 0 and 1 of the heap) -/
+def code0 : Code := { insts := cs1.insts, numParams := 0, numLocals := 2, variadic := false }
+
+def s0 : State :=
+  { newState #[code0]
+      #[.box (.int 3#64), .box (.bool false), .fn 0 none] (cs1.constants.map constV) 2 0 with
+    stack := ((Array.replicate stackSize V.nil).set! 0 (.int 3#64)).set! 1 (.bool false)
+    sp := 2, ip := -1, frameIndex := 1
+    frames := emptyFrames.modify 0 fun f => { f with fn := some 2, bp := 0 } }
+
+def env0 : Sem.Env := [[("x", 0), ("b", 1)]]
+
+def F0 : FloatOps := ⟨fun a _ => a, fun a _ => a, fun a _ => a, fun a _ => a, id, id, id⟩
+
+def isOkU {ε} : Except ε Unit → Bool | .ok _ => true | .error _ => false
+
+/-- the code: CONSTANT 0; GETLOCAL 0; BINARYOP +; CONSTANT 1; BINARYOP *; CONSTANT 2; BINARYOP <;
+    ORJUMP 26; GETLOCAL 1; UNARY ! -/
+example : cs1.insts = #[1, 0, 0, 5, 0, 8, 12, 1, 0, 1, 8, 14, 1, 0, 2, 8, 39, 15, 0, 0, 0, 26, 5, 1, 9, 42] := by
+  decide +kernel
+/-- evaluated agreement on this instance: the reference semantics returns `true` … -/
+example : (match (exec ((Sem.evalExpr F0 20 env0 e0).run {}) s0).1 with
+    | .ok (.val v, _) => v == .bool true | _ => false) = true := by decide +kernel
+/-- … and ten instructions of the VM model leave `true` in slot 2, `sp = 3`, `ip = 25` -/
+example : (match exec (loopF F0 10) s0 with
+    | (_, s) => s.ip == 25 && s.sp == 3 && s.stack[2]! == .bool true) = true := by decide +kernel
+
+theorem hc0 : Compile.runCM (Compile.compileExpr e0) cs0 = (.ok (), cs1) := by
+  have h : isOkU (Compile.runCM (Compile.compileExpr e0) cs0).1 = true := by decide +kernel
+  unfold cs1
+  cases hr : Compile.runCM (Compile.compileExpr e0) cs0 with
+  | mk r c =>
+    rw [hr] at h
+    cases r with
+    | ok u => rfl
+    | error e => simp [isOkU] at h
+
+
+attribute [irreducible] cs1
+
+theorem constsOK_map (K : Array Compile.Const) : ConstsOK K (K.map constV) := by
+  intro i cv h
+  rw [Array.getElem?_map, h]
+  rfl
+
+theorem hvm0 : VMOk cs1.constants code0 0 2 s0 where
+  abort := rfl
+  size := by decide +kernel
+  code := ⟨2, 0, none, by decide +kernel, by decide +kernel, rfl⟩
+  bp := by decide +kernel
+  consts := constsOK_map _
+  lo := by decide +kernel
+
+theorem hloc0 : LocalsOK (localIdx cs0) env0 s0 0 2 := by
+  intro n i h
+  by_cases hx : n = "x"
+  · subst hx
+    have h0 : localIdx cs0 "x" = some 0 := by decide +kernel
+    rw [h0] at h
+    injection h with h; subst h
+    exact ⟨0, .int 3#64, by decide +kernel, by decide +kernel, by decide, by decide +kernel, by intro b hb; cases hb⟩
+  · by_cases hb : n = "b"
+    · subst hb
+      have h0 : localIdx cs0 "b" = some 1 := by decide +kernel
+      rw [h0] at h
+      injection h with h; subst h
+      exact ⟨1, .bool false, by decide +kernel, by decide +kernel, by decide, by decide +kernel, by intro b hb; cases hb⟩
+    · exfalso
+      have h1 : ("x" == n) = false := by simpa using fun h' => hx h'.symm
+      have h2 : ("b" == n) = false := by simpa using fun h' => hb h'.symm
+      simp [localIdx, cs0, Compile.resolveIn, Compile.lookupSym, h1, h2, Compile.rootDisabled] at h
+
+theorem hF0 : ExprF (localIdx cs0) e0 = true := by decide +kernel
+theorem hcode0 : CodeHas code0 cs1.insts cs0.insts.size := fun _ _ _ => rfl
+theorem hip0 : s0.ip + 1 = (cs0.insts.size : Int) := by decide +kernel
+theorem hsp0 : s0.sp + need e0 ≤ 2048 := by decide +kernel
+theorem hsz0 : cs1.insts.size = 26 := by decide +kernel
+
+/-- the hypotheses of `compile_expr_correct` are satisfiable, and on this instance it says: the VM
+    gets from `s0` to a state with `true` pushed, `sp = 3`, `ip` at the end of the code -/
+example : ∃ s', Reach F0 s0 s' ∧ s'.stack[2]! = .bool true ∧ s'.sp = 3 ∧ s'.ip + 1 = 26 ∧ s'.frames = s0.frames := by
+  have hres : (match (exec ((Sem.evalExpr F0 20 env0 e0).run {}) s0).1 with
+      | .ok (.val (.bool true), _) => true | _ => false) = true := by decide +kernel
+  cases hr : exec ((Sem.evalExpr F0 20 env0 e0).run {}) s0 with
+  | mk r t1 =>
+    rw [hr] at hres
+    match r, hres with
+    | .ok (.val (.bool true), ss1), _ =>
+      have h := compile_expr_correct F0 e0 cs0 cs1 hc0 hF0 cs1.constants code0 0 2 env0 s0 s0
+        (Compile.IsPre.refl _) hcode0 hvm0 hip0 hsp0 rfl hloc0 20 {} ss1 _ t1 hr
+      obtain ⟨_, _, _, s', hreach, hsame, _, hip, hsp, _, hget⟩ := h
+      exact ⟨s', hreach, hget, by rw [hsp]; rfl, by rw [hip, hsz0]; rfl, hsame.frames⟩
+
+
+/-! the same instance as an expression statement `(1 + x) * 2 < 7 || !b;` -/
+
+def cs2 : Compile.CState := (Compile.runCM (Compile.compileStmt (.expr 12 e0)) cs0).2
+def code2 : Code := { insts := cs2.insts, numParams := 0, numLocals := 2, variadic := false }
+def s2 : State :=
+  { newState #[code2]
+      #[.box (.int 3#64), .box (.bool false), .fn 0 none] (cs2.constants.map constV) 2 0 with
+    stack := ((Array.replicate stackSize V.nil).set! 0 (.int 3#64)).set! 1 (.bool false)
+    sp := 2, ip := -1, frameIndex := 1
+    frames := emptyFrames.modify 0 fun f => { f with fn := some 2, bp := 0 } }
+
+theorem hc2 : Compile.runCM (Compile.compileStmt (.expr 12 e0)) cs0 = (.ok (), cs2) := by
+  have h : isOkU (Compile.runCM (Compile.compileStmt (.expr 12 e0)) cs0).1 = true := by decide +kernel
+  unfold cs2
+  cases hr : Compile.runCM (Compile.compileStmt (.expr 12 e0)) cs0 with
+  | mk r c =>
+    rw [hr] at h
+    cases r with
+    | ok u => rfl
+    | error e => simp [isOkU] at h
+
+attribute [irreducible] cs2
+
+theorem hvm2 : VMOk cs2.constants code2 0 2 s2 where
+  abort := rfl
+  size := by decide +kernel
+  code := ⟨2, 0, none, by decide +kernel, by decide +kernel, rfl⟩
+  bp := by decide +kernel
+  consts := constsOK_map _
+  lo := by decide +kernel
+
+theorem hloc2 : LocalsOK (localIdx cs0) env0 s2 0 2 := by
+  intro n i h
+  obtain ⟨a, v, h1, h2, h3, h4, h5⟩ := hloc0 n i h
+  exact ⟨a, v, h1, h2, h3, h4, h5⟩
+
+theorem hcode2 : CodeHas code2 cs2.insts cs0.insts.size := fun _ _ _ => rfl
+theorem hip2 : s2.ip + 1 = (cs0.insts.size : Int) := by decide +kernel
+theorem hsp2 : s2.sp + need e0 ≤ 2048 := by decide +kernel
+theorem hsz2 : cs2.insts.size = 27 := by decide +kernel
+
+/-- the hypotheses of `compile_exprstmt_correct` are satisfiable; on this instance: the VM gets behind
+    the POP with `sp = 2` again -/
+example : ∃ s', Reach F0 s2 s' ∧ s'.sp = 2 ∧ s'.ip + 1 = 27 ∧ s'.stack[0]! = .int 3#64 := by
+  have hres : (match (exec ((Sem.execStmt F0 21 env0 (.expr 12 e0)).run {}) s2).1 with
+      | .ok ((.normal, _), _) => true | _ => false) = true := by decide +kernel
+  cases hr : exec ((Sem.execStmt F0 21 env0 (.expr 12 e0)).run {}) s2 with
+  | mk r t1 =>
+    rw [hr] at hres
+    match r, hres with
+    | .ok ((.normal, env'), ss1), _ =>
+      have h := compile_exprstmt_correct F0 12 e0 cs0 cs2 hc2 hF0 cs2.constants code2 0 2 env0 s2 s2
+        (Compile.IsPre.refl _) hcode2 hvm2 hip2 hsp2 rfl hloc2 21 {} ss1 _ env' t1 hr
+      obtain ⟨_, _, _, s', hreach, _, _, hip, hsp, hag⟩ := h
+      refine ⟨s', hreach, by rw [hsp]; rfl, by rw [hip, hsz2]; rfl, ?_⟩
+      rw [hag.2 0 (by decide +kernel)]
+      decide +kernel
+
+end Ex
+/-- the source-level statement (not proved; tested by stream `sem`; `compile_expr_correct` above is its
+    first proved slice: expressions over uncaptured locals.  Still only tested: statements and
+    everything named at the end of the section above) -/
 def C02_full (Script Input Outcome : Type) (impl sem : Script → Input → Option Outcome) : Prop :=
   ∀ p i o₁ o₂, impl p i = some o₁ → sem p i = some o₂ → o₁ = o₂
 
